@@ -86,17 +86,21 @@ Fixpoint scan_close (fuel : nat) (s : str) (close : option nat) : option nat :=
     end
   end.
 
+(* arg_name / arg_syntax: the text inside the braces is cut at the first ':' (the ':' stays with
+   the syntax) *)
+Definition split_colon (inside : str) : str * str :=
+  match find COLON inside with
+  | Some k => (firstn k inside, skipn k inside)
+  | None => (inside, [])
+  end.
+
 (* the body executed for a placeholder starting at [o] *)
 Definition scan_hole (s : str) (o : nat) (st : scan_st) : option nat * scan_st :=
   match scan_close (S (length s)) s (find_from RB s (o + 1)) with
   | None => (None, st)
   | Some c =>
     let inside := substr s (o + 1) (c - (o + 1)) in
-    let '(name, syntax) :=
-      match find COLON inside with
-      | Some k => (firstn k inside, skipn k inside)
-      | None => (inside, [])
-      end in
+    let '(name, syntax) := split_colon inside in
     (Some c,
      {| cur_pos := c + 1;
         (* fmtquill::format("{}{{{}}}", fmt_template.substr(cur_pos, open - cur_pos), arg_syntax) *)
